@@ -2,7 +2,7 @@
 From Coq Require Import ZArith List Bool String Ascii Lia.
 From LV Require Import Base.Prelude Sys.IndenterBase Gen.IndenterHoles Sys.Indenter.
 Import ListNotations.
-Open Scope Z_scope.
+Local Open Scope Z_scope.
 
 
 Lemma gtb_false a b : a <= b -> (a >? b) = false.
